@@ -5,12 +5,14 @@
  * failures and hangs (alarm) stay inside the child and are attributable to exactly one input.
  *
  * usage:  unberdrv [watchdog-seconds]
- * stdin:  one command per line:   <mode> <hex>      mode u = "unber -p -" only
- *                                                   mode r = "unber -p -" and, if it printed anything,
- *                                                            "enber -" on that output
+ * stdin:  one command per line:   <modes> <hex>     modes is a string of letters:
+ *                                                   u = run "unber -p -" on the input
+ *                                                   e = if that printed anything, run "enber -" on its output
+ *                                                   d = run "unber -" (default, pretty-printing mode) on the input
  *                                 (an empty input is written as "-")
- * stdout: one line per command:   res us=<st> uo=<hex> ue=<hex> [es=<st> eo=<hex> ee=<hex>]
- *         <st> is the exit status (0..255) or sig<N> when the child was killed by signal N (14 = watchdog)
+ * stdout: one line per command:   res [us=<st> uo=<hex> ue=<hex>] [es=<st> eo=<hex> ee=<hex>] [ds=<st> dn=<size> de=<hex>]
+ *         <st> is the exit status (0..255) or sig<N> when the child was killed by signal N (14 = watchdog);
+ *         dn is the number of octets the default mode printed (the text itself is not returned)
  *
  * The parent never touches the stdio object `stdin` (the children inherit its buffer) and flushes
  * stdout before every fork.
@@ -99,6 +101,9 @@ static void run_tool(int which, const unsigned char *in, size_t nin, struct run 
         if(which == 0) {
             char *av[] = {"unber", "-p", "-", 0};
             exit(unber_main(3, av));
+        } else if(which == 2) {
+            char *av[] = {"unber", "-", 0};
+            exit(unber_main(2, av));
         } else {
             char *av[] = {"enber", "-", 0};
             exit(enber_main(2, av));
@@ -184,12 +189,13 @@ int main(int ac, char **av) {
         char *line = p;
         p = nl + 1;
         if(!*line) continue;
-        char mode = line[0];
-        if((mode != 'u' && mode != 'r') || line[1] != ' ') {
+        char *h = strchr(line, ' ');
+        if(!h || h == line || strspn(line, "ued") != (size_t)(h - line)) {
             printf("err bad-command\n");
             continue;
         }
-        char *h = line + 2;
+        *h++ = 0;
+        int do_u = !!strchr(line, 'u'), do_e = !!strchr(line, 'e'), do_d = !!strchr(line, 'd');
         size_t hl = strlen(h);
         unsigned char *in = malloc(hl / 2 + 1);
         size_t nin = 0;
@@ -210,24 +216,35 @@ int main(int ac, char **av) {
             continue;
         }
         struct run u, e;
-        run_tool(0, in, nin, &u);
         printf("res");
-        put_status("us", u.status);
-        put_hex("uo", u.out, u.nout);
-        put_hex("ue", u.err, u.nerr);
-        if(mode == 'r' && u.nout) {
-            run_tool(1, u.out, u.nout, &e);
-            put_status("es", e.status);
-            put_hex("eo", e.out, e.nout);
-            put_hex("ee", e.err, e.nerr);
-            free(e.out);
-            free(e.err);
+        if(do_u) {
+            run_tool(0, in, nin, &u);
+            put_status("us", u.status);
+            put_hex("uo", u.out, u.nout);
+            put_hex("ue", u.err, u.nerr);
+            if(do_e && u.nout) {
+                run_tool(1, u.out, u.nout, &e);
+                put_status("es", e.status);
+                put_hex("eo", e.out, e.nout);
+                put_hex("ee", e.err, e.nerr);
+                free(e.out);
+                free(e.err);
+            }
+            free(u.out);
+            free(u.err);
+        }
+        if(do_d) {
+            run_tool(2, in, nin, &u);
+            put_status("ds", u.status);
+            printf(" dn=%zu", u.nout);
+            put_hex("de", u.err, u.nerr);
+            free(u.out);
+            free(u.err);
         }
         putchar('\n');
-        free(u.out);
-        free(u.err);
         free(in);
     }
     fflush(stdout);
+    free(cmd);
     return 0;
 }
